@@ -244,7 +244,7 @@ theorem guardsOffN_single {A : Matrix (Fin n) (Fin n) 𝕜} (hA : A.PosDef)
     have hprev : ∀ j < i, GuardsOff (Matrix.toEuclideanLin A) (precLin P) smallR
         ((((‖B 0‖ : ℝ) : 𝕜))⁻¹ • B 0) ((((‖B 0‖ : ℝ) : 𝕜))⁻¹ • X0 0) j :=
       fun j hj => ih j hj (lt_trans hj hi)
-    have hcore := gSeq_core (A := Matrix.toEuclideanLin A) (M := precLin P) i hprev
+    have hcore := gSeq_core (A := Matrix.toEuclideanLin A) (M := precLin P) smallR_pos i hprev
     obtain ⟨j, hj⟩ := hstop i hi
     have hj0 : j = 0 := Subsingleton.elim _ _
     subst hj0
@@ -267,6 +267,84 @@ theorem guardsOffN_single {A : Matrix (Fin n) (Fin n) 𝕜} (hA : A.PosDef)
       linarith [smallR_pos]
     · rw [h0, norm_zero] at hj
       linarith
+
+
+/-! ## after the repair of `do_safe_div` (exact zero test): the mask is the only guard -/
+
+/-- **one right-hand side and `tol ≥ 1e-40`**: the mask is off during all the steps the loop makes —
+the stopping test keeps the relative residual above `tol`.  No constants of `A`, `P` are involved. -/
+theorem maskOffN_single {A : Matrix (Fin n) (Fin n) 𝕜} (hA : A.PosDef)
+    {P : Option (Matrix (Fin n) (Fin n) 𝕜)} (hP : PrecPosDef P)
+    (B X0 : Fin 1 → EuclideanSpace 𝕜 (Fin n)) (hb : B 0 ≠ 0) (maxIters : ℕ) {tol : ℝ}
+    (htol : smallR ≤ tol) :
+    MaskOffN (Matrix.toEuclideanLin A) (precLin P) smallR (B 0) (X0 0)
+      (runSteps (matArr A) (P.map matArr) (colsArr B) (colsArr X0) maxIters ((tol : ℝ) : 𝕜)) := by
+  have hAs := isSymmetric_toEuclideanLin hA
+  have hMs := isSymmetric_precLin hP
+  have pA := posDefOp_toEuclideanLin hA
+  have pM := posDefOp_precLin hP
+  have htol0 : 0 < tol := lt_of_lt_of_le smallR_pos htol
+  have hbpos : 0 < ‖B 0‖ := norm_pos_iff.mpr hb
+  obtain ⟨-, hstop⟩ := run_stop_exact A P B X0 maxIters tol
+  intro i
+  induction i using Nat.strong_induction_on with
+  | _ i ih =>
+    intro hi
+    have hprev : MaskOffN (Matrix.toEuclideanLin A) (precLin P) smallR (B 0) (X0 0) i :=
+      fun j hj => ih j hj (lt_trans hj hi)
+    have hok := stepOKN_of_maskOff hAs hMs pA pM smallR_pos hb hprev
+    have hres := (gState_r_true_ok hAs hMs pA pM smallR_pos hb hok).2
+    obtain ⟨j, hj⟩ := hstop i hi
+    have hj0 : j = 0 := Subsingleton.elim _ _
+    subst hj0
+    have hst : (colState A P B X0 0 i).r = (((‖B 0‖ : ℝ) : 𝕜))⁻¹ •
+        (cgSeq (Matrix.toEuclideanLin A) (precLin P) (B 0) (X0 0) i).r := hres
+    have hge : tol ≤ tolEffR A P B X0 tol 0 := by
+      unfold tolEffR
+      have : 0 ≤ tol * ‖(colState A P B X0 0 0).r‖ := mul_nonneg htol0.le (norm_nonneg _)
+      linarith
+    rw [hst, norm_smul, norm_inv, RCLike.norm_ofReal, abs_of_pos hbpos] at hj
+    have h1 : smallR < (‖B 0‖)⁻¹ * ‖(cgSeq (Matrix.toEuclideanLin A) (precLin P) (B 0) (X0 0) i).r‖ :=
+      lt_of_le_of_lt (htol.trans hge) hj
+    rw [lt_inv_mul_iff₀ hbpos, mul_comm] at h1
+    exact h1.le
+
+/-- value returned for column `j`: optimality from the mask condition alone (any batch) -/
+theorem xOut_optimal_mask {A : Matrix (Fin n) (Fin n) 𝕜} (hA : A.PosDef)
+    {P : Option (Matrix (Fin n) (Fin n) 𝕜)} (hP : PrecPosDef P)
+    (B X0 : Fin m → EuclideanSpace 𝕜 (Fin n)) (maxIters : ℕ) (tol : 𝕜) (j : Fin m)
+    (hb : B j ≠ 0)
+    (hg : MaskOffN (Matrix.toEuclideanLin A) (precLin P) smallR (B j) (X0 j)
+      (runSteps (matArr A) (P.map matArr) (colsArr B) (colsArr X0) maxIters tol))
+    {xs : EuclideanSpace 𝕜 (Fin n)} (hxs : Matrix.toEuclideanLin A xs = B j) :
+    let k := runSteps (matArr A) (P.map matArr) (colsArr B) (colsArr X0) maxIters tol
+    let Kry := krylov (precLin P ∘ₗ Matrix.toEuclideanLin A)
+      (precLin P (B j - Matrix.toEuclideanLin A (X0 j))) k
+    xOut A P B X0 maxIters tol j =
+      (cgSeq (Matrix.toEuclideanLin A) (precLin P) (B j) (X0 j) k).x ∧
+    xOut A P B X0 maxIters tol j - X0 j ∈ Kry ∧
+    (∀ y, y - X0 j ∈ Kry →
+      energy (Matrix.toEuclideanLin A) xs (xOut A P B X0 maxIters tol j) ≤
+        energy (Matrix.toEuclideanLin A) xs y) ∧
+    (∀ y, y - X0 j ∈ Kry →
+      energy (Matrix.toEuclideanLin A) xs y ≤
+        energy (Matrix.toEuclideanLin A) xs (xOut A P B X0 maxIters tol j) →
+      y = xOut A P B X0 maxIters tol j) :=
+  gRun_optimal_mask (isSymmetric_toEuclideanLin hA) (isSymmetric_precLin hP)
+    (posDefOp_toEuclideanLin hA) (posDefOp_precLin hP) smallR_pos hb hg hxs
+
+/-- value returned for column `j`, unconditionally (any batch, any `tol`, any `max_iters`) -/
+theorem xOut_final {A : Matrix (Fin n) (Fin n) 𝕜} (hA : A.PosDef)
+    {P : Option (Matrix (Fin n) (Fin n) 𝕜)} (hP : PrecPosDef P)
+    (B X0 : Fin m → EuclideanSpace 𝕜 (Fin n)) (maxIters : ℕ) (tol : 𝕜) (j : Fin m) (hb : B j ≠ 0) :
+    ∃ k', k' ≤ runSteps (matArr A) (P.map matArr) (colsArr B) (colsArr X0) maxIters tol ∧
+      MaskOffN (Matrix.toEuclideanLin A) (precLin P) smallR (B j) (X0 j) k' ∧
+      (k' = runSteps (matArr A) (P.map matArr) (colsArr B) (colsArr X0) maxIters tol ∨
+        ‖(cgSeq (Matrix.toEuclideanLin A) (precLin P) (B j) (X0 j) k').r‖ < smallR * ‖B j‖) ∧
+      xOut A P B X0 maxIters tol j =
+        (cgSeq (Matrix.toEuclideanLin A) (precLin P) (B j) (X0 j) k').x :=
+  gRun_final (isSymmetric_toEuclideanLin hA) (isSymmetric_precLin hP)
+    (posDefOp_toEuclideanLin hA) (posDefOp_precLin hP) smallR_pos hb _
 
 end matrix
 
